@@ -1141,7 +1141,9 @@ impl History {
         for i in 0..n {
             // (what follows a fatal packet has no defined effect on its own connection, so a DISCONNECT there would make
             // the fate of that connection's will undefined: only will-less connections send one)
-            let kinds = if self.will_of(link).is_some() { 4 } else { 5 };
+            // (nor connections of a client id for which a will of an earlier connection is still registered)
+            let client = self.s4.links[link].client_id.clone();
+            let kinds = if self.will_of(link).is_some() || self.model.wills.contains_key(&client) { 4 } else { 5 };
             let p = match self.rng.below(kinds) {
                 0 => Packet::PingReq(PingReq),
                 // (a DISCONNECT that reaches somebody else takes that client's will away and closes it)
